@@ -17,8 +17,8 @@
 //!   U p        an updates file: one BGP4MP_MESSAGE_AS4 of peer p announcing a prefix
 //!   S p        an updates file: one BGP4MP_STATE_CHANGE_AS4 of peer p, Established -> Idle
 //!   R a        a BMP router connects from address a
-//!   P a p v    on a new connection of router a (skipped if a never connected): Initiation, Peer Up of peer p,
-//!              view v = 0 Adj-RIB-In | 1 Adj-RIB-Out | 2 Loc-RIB
+//!   P a p v    on a new connection of router a (skipped if a never connected): Initiation (files sysName / sysDescr with the
+//!              router's entry: states/initiating.rs), Peer Up of peer p, view v = 0 Adj-RIB-In | 1 Adj-RIB-Out | 2 Loc-RIB
 //!   G p        a BGP session with peer p's address and AS reaches Established
 //!   X w p v    an entry filed directly: parent w = u (the mrt unit) | b (the bmp unit) | router address a; peer p; RIB view v or -
 //!   N k        update_info(the k-th id handed out, name)
